@@ -4,8 +4,8 @@ import os
 import re
 import lib
 
-_MUTANTS_QUICK = ["no_chain_on_split", "stale_next_on_split"]
-_MUTANTS_ALL = ["no_unlink_on_coalesce", "no_chain_on_split", "stale_next_on_split", "fits_any"]
+_MUTANTS_QUICK = ["no_chain_on_split", "stale_next_on_split", "prev_skips_other_length"]
+_MUTANTS_ALL = ["no_unlink_on_coalesce", "no_chain_on_split", "stale_next_on_split", "fits_any", "prev_skips_other_length"]
 # branches of publish / delete the replayed behaviours must reach (labels of PublishPath / DeletePath / UpdatePath in Archive.tla)
 _PATHS_REQUIRED = ["append", "exact@head", "exact@chain", "split@head", "split@chain", "head-plain", "head-truncate",
                    "head-coalesce", "mid-plain", "mid-coalesce", "mid-truncate", "inplace"]
